@@ -175,7 +175,7 @@ impl StarkProof {
             Self::continuous_page_headers(&public_input.public_memory, z, alpha);
         let main_page = Self::main_page(&public_input.public_memory)?;
         let dynamic_params = public_input.dynamic_params.unwrap_or_default();
-        let memory_segments = Builtin::sort_segments(public_input.memory_segments)
+        let memory_segments = Builtin::sort_segments(public_input.memory_segments)?
             .into_iter()
             .map(|s| SegmentInfo { begin_addr: s.begin_addr, stop_ptr: s.stop_ptr })
             .collect::<Vec<_>>();
